@@ -183,7 +183,14 @@ def s_unit_and_monitor(ctx):
         us.mismatches.append(dict(case=cases[i], note="the initialisation steps do not serve init_positions_l in the model's order"))
 
 
+def pre_build(ctx):
+    import gen_units
+    gen_units.pre_build(ctx, "translate_init")
+
+
 def run(ctx):
+    import gen_units
+    gen_units.g_unit(ctx, "translate_init")
     k_units(ctx)
     s_unit_and_monitor(ctx)
 
